@@ -2,6 +2,16 @@ open Datatypes
 
 val removelast : 'a1 list -> 'a1 list
 
+val rev : 'a1 list -> 'a1 list
+
+val concat : 'a1 list list -> 'a1 list
+
+val map : ('a1 -> 'a2) -> 'a1 list -> 'a2 list
+
 val flat_map : ('a1 -> 'a2 list) -> 'a1 list -> 'a2 list
 
 val existsb : ('a1 -> bool) -> 'a1 list -> bool
+
+val filter : ('a1 -> bool) -> 'a1 list -> 'a1 list
+
+val find : ('a1 -> bool) -> 'a1 list -> 'a1 option
